@@ -144,7 +144,10 @@ def compare(got: np.ndarray, ref: np.ndarray, declared: np.dtype, scale: float,
             return (f"NaN mismatch at flat index {k}: {g.reshape(-1)[k]} vs NumPy "
                     f"{r.reshape(-1)[k]}")
         gi, ri = np.isinf(g), np.isinf(r)
-        if not np.array_equal(gi, ri) or not np.array_equal(g[gi], r[ri]):
+        # (a complex entry such as inf+nanj is both infinite and NaN: compare the parts)
+        if not np.array_equal(gi, ri) \
+                or not np.array_equal(g[gi].real, r[ri].real, equal_nan=True) \
+                or not np.array_equal(g[gi].imag, r[ri].imag, equal_nan=True):
             return "infinity mismatch"
         fin = ~(gn | gi)
         if not fin.any():
